@@ -47,6 +47,14 @@ fn guard_entries() -> Vec<(&'static str, &'static str, bool)> {
         ("HashMap::keys().next()", "map.keys(&guard).next()", false),
         ("HashMap::values().next()", "map.values(&guard).next()", false),
         ("HashMap::with_guard", "map.with_guard(&guard)", false),
+        // each half of a pair on its own: the two references may carry different lifetimes
+        ("HashMap::get_key_value (key half)", "map.get_key_value(&k(), &guard).map(|kv| kv.0)", false),
+        ("HashMap::get_key_value (value half)", "map.get_key_value(&k(), &guard).map(|kv| kv.1)", false),
+        ("HashMap::remove_entry (key half)", "map.remove_entry(&k(), &guard).map(|kv| kv.0)", false),
+        ("HashMap::remove_entry (value half)", "map.remove_entry(&k(), &guard).map(|kv| kv.1)", false),
+        ("HashMap::iter().next() (key half)", "map.iter(&guard).next().map(|kv| kv.0)", false),
+        ("HashMap::iter().next() (value half)", "map.iter(&guard).next().map(|kv| kv.1)", false),
+        ("HashMap::try_insert(Ok) by value", "map.try_insert(\"zz\".to_string(), k(), &guard).map_err(|_| ())", false),
         ("HashSet::get", "map.get(&k(), &guard)", true),
         ("HashSet::take", "map.take(&k(), &guard)", true),
         ("HashSet::iter", "map.iter(&guard)", true),
@@ -70,6 +78,17 @@ fn ref_entries() -> Vec<(&'static str, &'static str, bool)> {
         ("HashMapRef::values", "r.values()", false),
         ("HashMapRef::index", "&r[&k()]", false),
         ("HashMapRef::into_iter", "(&r).into_iter()", false),
+        ("HashMapRef::get_key_value (key half)", "r.get_key_value(&k()).map(|kv| kv.0)", false),
+        ("HashMapRef::get_key_value (value half)", "r.get_key_value(&k()).map(|kv| kv.1)", false),
+        ("HashMapRef::remove_entry (key half)", "r.remove_entry(&k()).map(|kv| kv.0)", false),
+        ("HashMapRef::remove_entry (value half)", "r.remove_entry(&k()).map(|kv| kv.1)", false),
+        ("HashMapRef::iter().next() (key half)", "r.iter().next().map(|kv| kv.0)", false),
+        ("HashMapRef::iter().next() (value half)", "r.iter().next().map(|kv| kv.1)", false),
+        ("HashMapRef::keys().next()", "r.keys().next()", false),
+        ("HashMapRef::values().next()", "r.values().next()", false),
+        ("HashMapRef::into_iter().next() (value half)", "(&r).into_iter().next().map(|kv| kv.1)", false),
+        ("HashMapRef::try_insert(Ok)", "r.try_insert(\"zz\".to_string(), k()).ok()", false),
+        ("HashSetRef::iter().next()", "r.iter().next()", true),
         ("HashSetRef::get", "r.get(&k())", true),
         ("HashSetRef::take", "r.take(&k())", true),
         ("HashSetRef::iter", "r.iter()", true),
@@ -177,6 +196,14 @@ impl<'de> serde::Deserialize<'de> for SyncNotSend { fn deserialize<D: serde::Des
 pub struct Neither(Rc<i32>);
 impl<'de> serde::Deserialize<'de> for Neither { fn deserialize<D: serde::Deserializer<'de>>(d: D) -> Result<Self, D::Error> { Ok(Neither(Rc::new(i32::deserialize(d)?))) } }
 
+/// Copy variants (the by-reference impls require Copy): the marker decides the auto traits
+#[derive(Clone, Copy, PartialEq, Eq, PartialOrd, Ord, Hash, Default)]
+pub struct SendNotSyncC(i32, std::marker::PhantomData<std::cell::Cell<()>>);
+#[derive(Clone, Copy, PartialEq, Eq, PartialOrd, Ord, Hash, Default)]
+pub struct SyncNotSendC(i32, std::marker::PhantomData<std::sync::MutexGuard<'static, ()>>);
+#[derive(Clone, Copy, PartialEq, Eq, PartialOrd, Ord, Hash, Default)]
+pub struct NeitherC(i32, std::marker::PhantomData<Rc<()>>);
+
 /// thread-safe control type
 #[derive(Clone, Copy, PartialEq, Eq, PartialOrd, Ord, Hash, Default, serde::Deserialize)]
 pub struct Fine(i32);
@@ -208,7 +235,7 @@ fn gen_c17() -> (String, Vec<Func>) {
         ("ParallelExtend<(K, V)> for HashMapRef", "let m: HashMap<K, V> = HashMap::new(); m.pin().par_extend(Vec::<(K, V)>::new().into_par_iter());"),
     ];
     let copy_entries: Vec<(&str, &str)> = vec![
-        ("Extend<(&K, &V)> for &HashMap", "let m: HashMap<K, V> = HashMap::new(); let src: Vec<(K, V)> = Vec::new(); (&m).extend(src.iter().map(|(k, v)| (k, v)));"),
+        ("Extend<(&K, &V)> for &HashMap", "let m: HashMap<K, V> = HashMap::new(); let src: Vec<(K, V)> = Vec::new(); <&HashMap<K, V> as Extend<(&K, &V)>>::extend(&mut &m, src.iter().map(|(k, v)| (k, v)));"),
         ("FromIterator<(&K, &V)> for HashMap", "let src: Vec<(K, V)> = Vec::new(); let m: HashMap<K, V> = src.iter().map(|(k, v)| (k, v)).collect();"),
         ("FromIterator<&(K, V)> for HashMap", "let src: Vec<(K, V)> = Vec::new(); let m: HashMap<K, V> = src.iter().collect();"),
     ];
@@ -225,7 +252,7 @@ fn gen_c17() -> (String, Vec<Func>) {
         ("ParallelExtend<T> for HashSetRef", "let s: HashSet<K> = HashSet::new(); s.pin().par_extend(Vec::<K>::new().into_par_iter());"),
     ];
     let bad = ["Neither", "SendNotSync", "SyncNotSend"];
-    let subst = |body: &str, k: &str, v: &str| body.replace("<K, V>", &format!("<{}, {}>", k, v)).replace("(K, V)", &format!("({}, {})", k, v)).replace("K::default()", &format!("{}::default()", k)).replace("V::default()", &format!("{}::default()", v)).replace("<K>", &format!("<{}>", k)).replace("<K>>", &format!("<{}>>", k)).replace("as Extend<K>", &format!("as Extend<{}>", k)).replace("FromParallelIterator<K>", &format!("FromParallelIterator<{}>", k));
+    let subst = |body: &str, k: &str, v: &str| body.replace("<K, V>", &format!("<{}, {}>", k, v)).replace("(K, V)", &format!("({}, {})", k, v)).replace("K::default()", &format!("{}::default()", k)).replace("V::default()", &format!("{}::default()", v)).replace("<K>", &format!("<{}>", k)).replace("<K>>", &format!("<{}>>", k)).replace("as Extend<K>", &format!("as Extend<{}>", k)).replace("as Extend<&K>", &format!("as Extend<&{}>", k)).replace("(&K, &V)", &format!("(&{}, &{})", k, v)).replace("FromParallelIterator<K>", &format!("FromParallelIterator<{}>", k));
     for (name, body) in &map_entries {
         add(&mut fs, false, (name, "thread-safe key and value"), subst(body, "Fine", "Fine"));
         for b in bad {
@@ -233,8 +260,23 @@ fn gen_c17() -> (String, Vec<Func>) {
             add(&mut fs, true, (name, &format!("{} in value position", b)), subst(body, "Fine", b));
         }
     }
+    let bad_copy = ["NeitherC", "SendNotSyncC", "SyncNotSendC"];
     for (name, body) in &copy_entries {
         add(&mut fs, false, (name, "thread-safe Copy key and value"), subst(body, "Fine", "Fine"));
+        for b in bad_copy {
+            add(&mut fs, true, (name, &format!("{} (Copy) in key position", b)), subst(body, b, "Fine"));
+            add(&mut fs, true, (name, &format!("{} (Copy) in value position", b)), subst(body, "Fine", b));
+        }
+    }
+    let copy_set_entries: Vec<(&str, &str)> = vec![
+        ("Extend<&T> for &HashSet", "let s: HashSet<K> = HashSet::new(); let src: Vec<K> = Vec::new(); <&HashSet<K> as Extend<&K>>::extend(&mut &s, src.iter());"),
+        ("FromIterator<&T> for HashSet", "let src: Vec<K> = Vec::new(); let s: HashSet<K> = src.iter().collect();"),
+    ];
+    for (name, body) in &copy_set_entries {
+        add(&mut fs, false, (name, "thread-safe Copy element"), subst(body, "Fine", "Fine"));
+        for b in bad_copy {
+            add(&mut fs, true, (name, &format!("{} (Copy) as element", b)), subst(body, b, "Fine"));
+        }
     }
     for (name, body) in &set_entries {
         add(&mut fs, false, (name, "thread-safe element"), subst(body, "Fine", "Fine"));
